@@ -372,26 +372,10 @@ func (c CollectionPage) Equals(with Item) bool {
 			}
 			return nil
 		})
+		// current, first and last are compared by the collection comparison above: comparing them here again
+		// doubled the work at every level of a chain of pages
 		if w.PartOf != nil {
 			if !ItemsEqual(c.PartOf, w.PartOf) {
-				result = false
-				return nil
-			}
-		}
-		if w.Current != nil {
-			if !ItemsEqual(c.Current, w.Current) {
-				result = false
-				return nil
-			}
-		}
-		if w.First != nil {
-			if !ItemsEqual(c.First, w.First) {
-				result = false
-				return nil
-			}
-		}
-		if w.Last != nil {
-			if !ItemsEqual(c.Last, w.Last) {
 				result = false
 				return nil
 			}
